@@ -184,7 +184,8 @@ def r2_frame(P, rep, ctx):
         for kind, t in store_targets(st):
             tt = norm(t)
             if isinstance(t, (ast.Subscript, ast.Attribute)):
-                ok = rv is not None and (tt.startswith(f"{rv}.__dict__[") or tt.startswith(f"{rv}."))
+                xt = f.x(t)  # through local aliases: `d = ret.__dict__; d[k] = v` stores into ret.__dict__
+                ok = rv is not None and any(u.startswith(f"{rv}.__dict__[") or u.startswith(f"{rv}.") for u in (tt, xt))
                 rep.check(ok, "C14.R2", fi.qual, f"store goes to the copy only: {tt}", fi.loc(st), construct=norm(st)[:100], message=f"merge_with stores into an operand or shared object: {norm(st)[:100]}")
     rep.check(rv is not None, "C14.R2", fi.qual, "merge_with returns the copy", fi.loc(), construct="return of merge_with", message=f"merge_with returns {[norm(v) for v in rets]}")
     for q in (f"{PM}.merge_with", f"{PM}._update_field", f"{PM}.merge", f"{PM}._to_partial_value"):
@@ -383,14 +384,14 @@ def r4_policy(P, rep, ctx):
     # model test precedes the opaque path; ValidationError fallback only
     fi2 = P.func(f"{PM}.from_partial")
     f2 = F(ctx, fi2)
-    rets2 = [f2.xe(v) for _, v in f2.returns() if v is not None]
     ok = False
-    for rv_ in rets2:
-        m = MM.match("self.__partial_src__.parse_obj(__d)", rv_)
-        dd = m["__d"] if m else None
-        if isinstance(dd, ast.DictComp) and len(dd.generators) == 1 and not dd.generators[0].ifs and norm(dd.generators[0].iter) == "self.__partial_fac__._get_field_vals(self)" and isinstance(dd.generators[0].target, ast.Tuple):
-            k_, v_ = [norm(e) for e in dd.generators[0].target.elts]
-            ok = norm(dd.key) == k_ and norm(dd.value) == f"val_from_partial({v_})"
+    for i_, rv0 in f2.returns():
+        if rv0 is None:
+            continue
+        m = MM.match("self.__partial_src__.parse_obj(__d)", rv0) or MM.match("self.__partial_src__.parse_obj(__d)", f2.xe(rv0))
+        db = f2.dict_build(m["__d"]) if m else None
+        fams = db["families"] if db is not None and not db["const"] else []
+        ok = len(fams) == 1 and fams[0]["src"] == "self.__partial_fac__._get_field_vals(self)" and fams[0]["key"] == "V0" and fams[0]["val"] == "val_from_partial(V1)" and MM.equivalent(fams[0]["kept"], "True")
     rep.check(ok, "C14.R4", fi2.qual, "from_partial feeds exactly the recursively un-partialled field values to the source model", fi2.loc(), construct="from_partial", message="from_partial does not parse `{k: val_from_partial(v) for k, v in _get_field_vals(self)}` with the source model")
     mwfi = P.func(f"{PM}.merge_with")
     mw = F(ctx, mwfi)
